@@ -83,8 +83,18 @@ def run(ctx, rep):
     obligations.check_chain(db, rep, 'C09.bounds', 'validated-before-commit', [VERIFY, CONFIG_VALIDATE, POW_CONFIG_VALIDATE], b, None, cfg)
     v = db.fn(VERIFY, 'C09.bounds')
     dom = v.dominators()
-    bv = cfgmod.blocks_calling(v, db, {CONFIG_VALIDATE}, b)
-    bc = cfgmod.blocks_calling(v, db, {STARK_COMMIT}, b)
+    # the call that leads to validation dominates the call that leads to stark_commit (they may be the same call when
+    # verify is split into stages; then the stage itself is checked by the chain above)
+    bv = cfgmod.blocks_reaching(v, db, {CONFIG_VALIDATE}, b)
+    bc = cfgmod.blocks_reaching(v, db, {STARK_COMMIT}, b) - bv
+    if not bc and cfgmod.blocks_reaching(v, db, {STARK_COMMIT}, b):
+        # both are reached through the same call(s): look inside that stage
+        stage = [r for bi, t in v.calls() if bi in bv for r in db.resolve(t['f'], b) if r in db.fns and db.fns[r].has_mir]
+        if len(stage) == 1:
+            v = db.fns[stage[0]]
+            dom = v.dominators()
+            bv = cfgmod.blocks_reaching(v, db, {CONFIG_VALIDATE}, b)
+            bc = cfgmod.blocks_reaching(v, db, {STARK_COMMIT}, b) - bv
     rep.ob('C09.bounds', 'validate-dominates-commit', bool(bv) and bool(bc) and all(any(x in dom.get(c, ()) for x in bv) for c in bc),
            'config validation dominates stark_commit in verify', v.loc(), cfg)
     # ---------- (b) order in commit ----------
